@@ -239,6 +239,10 @@ def classify_disagreement(c, er):
     flags = c.get("flags", [])
     if sym == "decimal-scale-overflow":   # one root cause (DECIMAL(28,10): every * adds the scales), nested or not
         return "number-multiplication:decimal-scale-overflow"
+    if (CLAUSE_ON_RESULT.search(c["script"]) and "measure-renaming-operator" in flags and not er["ok"]
+            and __import__("re").search(r'"(bool_var|int_var|num_var|str_var)" not found', er.get("msg", ""))):
+        # the recorded defect: a clause applied directly to the result of a measure-renaming operator (wherever it sits in the statement)
+        return "nested:clause-applied-to-operator-result:failure"
     if "union-under-structure-change" in flags and (sym == "wrong-result" or sym.startswith("sql-")):
         return f"nested:union-under-structure-change:{'failure' if sym != 'wrong-result' else sym}"
     if c.get("nested"):
